@@ -600,7 +600,7 @@ def run_c15(run, scratch, seed, tier):
 
 
 def run_c06(run, scratch, seed, tier):
-    bst = backtest_suite(run, scratch, seed, sizes(tier, 300, 5000), oracle_fns=[("C06 rebalance", oracles.c06_rebalance)])
+    bst = backtest_suite(run, scratch, seed, sizes(tier, 300, 5000), oracle_fns=[("C06 rebalance", oracles.c06_rebalance), ("C06 rebalance over time", oracles.c06_rebalance_over_time)])
     run.add_suite("backtest_runs", bst)
     run.cov["rule"] = bst["rule"]
     import gen_engine
